@@ -6,12 +6,16 @@ import (
 	"encoding/hex"
 	"encoding/json"
 	"fmt"
+	"io"
 	"math/rand"
+	"net/http"
+	"net/http/httptest"
 	"os"
 	"path/filepath"
 	"regexp"
 	"sort"
 	"strings"
+	"sync"
 	"testing"
 	"time"
 
@@ -685,6 +689,8 @@ type Shape struct {
 	// without address), built in-package by harness/overlay/cluster/zz_verif_c12_test.go.
 	// Testnet: custom network given with the --testnet-* flags. Network is then what --network carries
 	// ("" = `--network=`), OmitNetwork leaves the flag out (the command defaults it to mainnet).
+	// Keymanager: the key shares go to one keymanager per node (--keymanager-addresses) instead of to disk.
+	Keymanager    bool            `json:"keymanager,omitempty"`
 	Testnet       *Testnet        `json:"testnet,omitempty"`
 	OmitNetwork   bool            `json:"omit_network,omitempty"`
 	CreatorSigned bool            `json:"creator_signed,omitempty"`
@@ -877,8 +883,62 @@ func createFromDefinition(bin, dir string, def cluster.Definition, tn *Testnet) 
 	return out, b, err
 }
 
+// fakeKeymanager is a keymanager API endpoint that records, in order, every (keystore, password) pair it
+// is asked to import and answers 200 like real keymanagers (per-key status would be in the body).
+type fakeKeymanager struct {
+	mu        sync.Mutex
+	keystores []string
+	passwords []string
+	requests  int
+	bad       []string
+	srv       *httptest.Server
+}
+
+func newFakeKeymanager() *fakeKeymanager {
+	k := &fakeKeymanager{}
+	k.srv = httptest.NewServer(http.HandlerFunc(func(w http.ResponseWriter, r *http.Request) {
+		defer r.Body.Close()
+		data, err := io.ReadAll(r.Body)
+		var req struct {
+			Keystores []string `json:"keystores"`
+			Passwords []string `json:"passwords"`
+		}
+		k.mu.Lock()
+		defer k.mu.Unlock()
+		k.requests++
+		if err != nil || json.Unmarshal(data, &req) != nil || len(req.Keystores) != len(req.Passwords) || !strings.HasSuffix(r.URL.Path, "/eth/v1/keystores") || r.Method != http.MethodPost {
+			k.bad = append(k.bad, fmt.Sprintf("malformed import request %s %s (%d keystores, %d passwords)", r.Method, r.URL.Path, len(req.Keystores), len(req.Passwords)))
+			w.WriteHeader(http.StatusBadRequest)
+			return
+		}
+		k.keystores = append(k.keystores, req.Keystores...)
+		k.passwords = append(k.passwords, req.Passwords...)
+		w.WriteHeader(http.StatusOK)
+	}))
+	return k
+}
+
+// materialise writes what the keymanager received as keystore-<i>.json / .txt (receive order) so that the
+// same monitor as for disk output reads it: each keystore must decrypt with the password sent WITH it.
+func (k *fakeKeymanager) materialise(dir string) error {
+	k.mu.Lock()
+	defer k.mu.Unlock()
+	if err := os.MkdirAll(dir, 0o755); err != nil {
+		return err
+	}
+	for i := range k.keystores {
+		if err := os.WriteFile(filepath.Join(dir, fmt.Sprintf("keystore-insecure-%d.json", i)), []byte(k.keystores[i]), 0o600); err != nil {
+			return err
+		}
+		if err := os.WriteFile(filepath.Join(dir, fmt.Sprintf("keystore-insecure-%d.txt", i)), []byte(k.passwords[i]), 0o600); err != nil {
+			return err
+		}
+	}
+	return nil
+}
+
 // createCluster runs `charon create cluster` (the binary built from the checked working tree).
-func createCluster(bin, dir string, s Shape) (string, error) {
+func createCluster(bin, dir string, s Shape, extra ...string) (string, error) {
 	fee, wd := shapeAddrs(s)
 	args := []string{"create", "cluster", "--insecure-keys", "--cluster-dir=" + dir, "--name=verif",
 		fmt.Sprintf("--nodes=%d", s.Nodes), fmt.Sprintf("--num-validators=%d", s.Validators),
@@ -903,6 +963,7 @@ func createCluster(bin, dir string, s Shape) (string, error) {
 	if s.Compounding {
 		args = append(args, "--compounding")
 	}
+	args = append(args, extra...)
 	return runCmd(90*time.Second, append(os.Environ(), "HOME="+dir), bin, args...)
 }
 
@@ -975,6 +1036,37 @@ func checkShape(t *testing.T, bin string, s Shape, exhaustive bool, rnd func(int
 			return res
 		}
 		fee, wd = def.FeeRecipientAddresses(), def.WithdrawalAddresses()
+	} else if s.Keymanager {
+		var kms []*fakeKeymanager
+		var addrs, toks []string
+		for i := 0; i < s.Nodes; i++ {
+			km := newFakeKeymanager()
+			defer km.srv.Close()
+			kms = append(kms, km)
+			addrs = append(addrs, km.srv.URL)
+			toks = append(toks, fmt.Sprintf("token%d", i))
+		}
+		if out, err := createCluster(bin, dir, s, "--keymanager-addresses="+strings.Join(addrs, ","), "--keymanager-auth-tokens="+strings.Join(toks, ",")); err != nil {
+			failf("create cluster with keymanagers failed: %v: %s", err, lastLines(out, 3))
+			return res
+		}
+		for i, km := range kms {
+			if len(km.bad) > 0 {
+				failf("keymanager of node%d: %s", i, km.bad[0])
+			}
+			if _, err := os.Stat(filepath.Join(dir, fmt.Sprintf("node%d", i), "validator_keys")); err == nil {
+				failf("keymanager mode wrote key stores of node%d to disk as well", i)
+				return res
+			}
+			if len(km.keystores) != s.Validators {
+				failf("keymanager of node%d received %d keystores in %d requests, want %d (one per validator); nothing is on disk in keymanager mode, so missing shares are lost", i, len(km.keystores), km.requests, s.Validators)
+				return res
+			}
+			// what the keymanager received = that node's key stores; checked by the monitor below
+			if err := km.materialise(filepath.Join(dir, fmt.Sprintf("node%d", i), "validator_keys")); err != nil {
+				t.Fatal(err)
+			}
+		}
 	} else if out, err := createCluster(bin, dir, s); err != nil {
 		failf("create cluster failed: %v: %s", err, lastLines(out, 3))
 		return res
@@ -1028,6 +1120,10 @@ func checkShape(t *testing.T, bin string, s Shape, exhaustive bool, rnd func(int
 	secrets := make([][]tbls.PrivateKey, s.Nodes)
 	for i := 0; i < s.Nodes; i++ {
 		kf, err := keystore.LoadFilesUnordered(filepath.Join(dir, fmt.Sprintf("node%d", i), "validator_keys"))
+		if err != nil && s.Keymanager {
+			failf("keymanager of node%d: a received keystore does not decrypt with the password sent with it (nothing is on disk in keymanager mode: that share is lost): %v", i, shortErr(err))
+			return res
+		}
 		if err != nil {
 			failf("node%d keystores: %v", i, err)
 			return res
@@ -1379,6 +1475,11 @@ func shapes(thorough bool, rnd func(int) int) []Shape {
 		Shape{Nodes: 4, Threshold: 3, Validators: 2, Testnet: tn, Network: "sepolia", Amounts: []int{16, 16}, MultiAddr: true},
 		Shape{Nodes: 3, Threshold: 0, Validators: 1, Testnet: tn, Network: "", Amounts: []int{32}},
 	)
+	// key shares sent to one keymanager per node instead of to disk (more than 10 validators as well)
+	quick = append(quick,
+		Shape{Keymanager: true, Nodes: 3, Threshold: 2, Validators: 12, Network: "hoodi", Amounts: []int{32}},
+		Shape{Keymanager: true, Nodes: 4, Threshold: 3, Validators: 2, Network: "sepolia", MultiAddr: true},
+	)
 	// create cluster FROM A DEFINITION FILE (insecure keys are refused on mainnet/gnosis): deposit amount
 	// lists in every order and with repeats, per-validator addresses, old versions, signed definitions
 	quick = append(quick,
@@ -1401,6 +1502,9 @@ func shapes(thorough bool, rnd func(int) int) []Shape {
 		return quick
 	}
 	out := append([]Shape{}, quick...)
+	for i, nv := range []int{1, 10, 11, 21, 13} {
+		out = append(out, Shape{Keymanager: true, Nodes: 3 + i%3, Threshold: 0, Validators: nv, Network: []string{"hoodi", "chiado", "goerli"}[i%3], Amounts: []int{32}, MultiAddr: i%2 == 1})
+	}
 	tn2 := &Testnet{Name: "verifnet2", ForkVersion: "0x00abcdef", ChainID: 777, GenesisTimestamp: 1650000000}
 	out = append(out,
 		Shape{Nodes: 5, Threshold: 4, Validators: 2, Testnet: tn2, OmitNetwork: true, Network: "mainnet", Amounts: []int{8, 24}, MultiAddr: true},
